@@ -332,6 +332,8 @@ def units(tier):
         qname = ("p" if small else "full") if T else ("small" if small else "p")
         n3 = len(f["ranges"]) * len(Q3[qname])
         for i in range(n3):
+            if small and not T and fam == "mimep":
+                continue          # 9 ranges x 6 offers: its 3-item headers stay in thorough
             if T:
                 for j in range(0, n3, 9):
                     us.append(("h3", fam, i, (j, min(n3, j + 9)), qname))
